@@ -26,13 +26,17 @@ func repoDir() string {
 var states = []string{"StepUpgrade", "StepTrafficRouting", "StepPaused", "StepReady", "BeforeStepUpgrade", "StepMetricsAnalysis"}
 
 // Families drawn for each property (weights by repetition).
-var families = []string{"deployment/canary", "deployment/canary", "deployment/bluegreen", "cloneset/partition", "cloneset/partition", "cloneset/bluegreen", "statefulset/partition", "advstatefulset/partition"}
+var families = []string{"deployment/canary", "deployment/canary", "deployment/bluegreen", "cloneset/partition", "cloneset/partition", "cloneset/bluegreen", "statefulset/partition", "advstatefulset/partition", "daemonset/partition"}
 
 // ExtraFamilies is appended to by plug-ins that add workload kinds / controllers.
 var ExtraFamilies []string
 
 func drawFamily(rng *rand.Rand) string {
 	all := append(append([]string{}, families...), ExtraFamilies...)
+	if f := os.Getenv("VERIF_FAMILY"); f != "" { // development aid: restrict the closed-loop cases to one family
+		rng.Intn(len(all))
+		return f
+	}
 	return all[rng.Intn(len(all))]
 }
 
@@ -53,8 +57,92 @@ func GenFor(prop string, rng *rand.Rand) *sim.Scenario {
 	return genForFamily(prop, rng, drawFamily(rng))
 }
 
+// featureFor gives some case indices a fixed scenario feature, so that the rarer scenario families are present in
+// every run whatever the seed draws: "" = whatever the generator draws.
+func featureFor(prop string, idx int) string {
+	in := func(l ...string) bool {
+		for _, x := range l {
+			if x == prop {
+				return true
+			}
+		}
+		return false
+	}
+	switch {
+	case idx%16 == 5 && in("C02", "C01", "C11", "C05", "C07"):
+		return "rollback-batches"
+	case idx%16 == 9 && in("C05", "C18"):
+		return "delete-workload"
+	case idx%8 == 3 && in("C11"):
+		return "failure-threshold"
+	case idx%16 == 13 && in("C10", "C05"):
+		return "rollback-annotation-with-traffic"
+	case idx%8 == 6 && in("C07"):
+		return "spec-grace-zero"
+	}
+	return ""
+}
+
+// GenForCase is GenFor with the case's fixed feature (see featureFor).
+func GenForCase(prop string, rng *rand.Rand, idx int) *sim.Scenario {
+	fam := drawFamily(rng)
+	feature := featureFor(prop, idx)
+	switch feature {
+	case "rollback-batches", "rollback-annotation-with-traffic":
+		fam = "cloneset/partition"
+	case "spec-grace-zero":
+		if fam == "daemonset/partition" {
+			fam = "cloneset/partition" // (a DaemonSet release with traffic routing never ends: recorded finding)
+		}
+	}
+	return genForFamilyF(prop, rng, fam, feature)
+}
+
 func genForFamily(prop string, rng *rand.Rand, family string) *sim.Scenario {
+	return genForFamilyF(prop, rng, family, "")
+}
+
+func genForFamilyF(prop string, rng *rand.Rand, family, feature string) *sim.Scenario {
 	s := sim.GenScenario(rng, family)
+	if feature == "rollback-batches" || feature == "failure-threshold" {
+		s.Provider = "none"
+		for i := range s.Steps {
+			s.Steps[i].Traffic, s.Steps[i].Match = -1, ""
+		}
+	}
+	if feature == "rollback-annotation-with-traffic" {
+		// the annotation asks for a rollback in batches, which only applies without traffic routing: with traffic the
+		// rollback must still cancel the release and put traffic back first
+		if !s.HasTraffic() {
+			s.Provider = []string{"ingress:nginx", "gateway", "custom"}[rng.Intn(3)]
+			for i := range s.Steps {
+				s.Steps[i].Traffic = 10 + rng.Intn(80)
+			}
+		}
+		s.RollbackInBatch = true
+		s.NoCanarySvc = rng.Intn(2) == 0
+		s.Events = append(s.Events, sim.Injected{AtStep: 1 + rng.Intn(len(s.Steps)), AtState: states[rng.Intn(len(states))], Action: "rollback", Immediate: rng.Intn(2) == 0})
+		return s
+	}
+	if feature == "spec-grace-zero" {
+		// timed mode: the controllers keep their built-in waits (1 s instead of 3 s), the traffic routing entry says
+		// gracePeriodSeconds: 0 explicitly, and a non-positive RequeueAfter is dropped as controller-runtime drops it
+		if !s.HasTraffic() {
+			s.Provider = []string{"ingress:nginx", "gateway", "custom"}[rng.Intn(3)]
+			for i := range s.Steps {
+				s.Steps[i].Traffic = 10 + rng.Intn(80)
+			}
+		}
+		s.Grace, s.SpecGraceZero = 1, true
+	}
+	if feature == "failure-threshold" {
+		// a degraded release: some new pods never become ready, the plan tolerates a share of them
+		// (a larger workload, so that a share of the updated pods and the same share of all pods differ by whole pods)
+		s.Replicas = int32(12 + rng.Intn(9))
+		s.FailureThreshold = []string{"10%", "20%", "25%", "30%", "1", "2"}[rng.Intn(6)]
+		s.UnreadyEvery = 2 + rng.Intn(2)
+		return s
+	}
 	n := len(s.Steps)
 	at := func() (int, string) { return 1 + rng.Intn(n), states[rng.Intn(len(states))] }
 	add := func(action string) {
@@ -103,7 +191,7 @@ func genForFamily(prop string, rng *rand.Rand, family string) *sim.Scenario {
 		s.NoCanarySvc = true
 	}
 	// traffic configured in a TrafficRouting custom resource instead of in the Rollout
-	if s.HasTraffic() && s.Style != "bluegreen" && (prop == "C18" || prop == "C05" || prop == "C07" || prop == "C09" || prop == "C06" || prop == "C19") && rng.Intn(8) == 0 {
+	if feature == "" && s.HasTraffic() && s.Style != "bluegreen" && (prop == "C18" || prop == "C05" || prop == "C07" || prop == "C09" || prop == "C06" || prop == "C19") && rng.Intn(8) == 0 {
 		s.TRCR, s.TRWeight = true, 5+rng.Intn(90)
 		for i := range s.Steps {
 			s.Steps[i].Traffic, s.Steps[i].Match = -1, ""
@@ -117,7 +205,7 @@ func genForFamily(prop string, rng *rand.Rand, family string) *sim.Scenario {
 		return s
 	}
 	// rollback in batches: the plan is walked a second time towards the old revision (CloneSet, no traffic routing)
-	if s.Kind == "cloneset" && s.Style == "partition" && (prop == "C02" || prop == "C01" || prop == "C11" || prop == "C05" || prop == "C07" || prop == "C06" || prop == "C19") && rng.Intn(8) == 0 {
+	if s.Kind == "cloneset" && s.Style == "partition" && (feature == "rollback-batches" || (feature == "" && (prop == "C02" || prop == "C01" || prop == "C11" || prop == "C05" || prop == "C07" || prop == "C06" || prop == "C19") && rng.Intn(8) == 0)) {
 		s.RollbackInBatch = true
 		s.Provider = "none"
 		for i := range s.Steps {
@@ -142,6 +230,15 @@ func genForFamily(prop string, rng *rand.Rand, family string) *sim.Scenario {
 	}
 	switch prop {
 	case "C05", "C18":
+		if feature == "delete-workload" || rng.Intn(12) == 0 {
+			// the user deletes the workload itself in the middle of the release and (usually) the Rollout afterwards
+			st, state := at()
+			s.Events = append(s.Events, sim.Injected{AtStep: st, AtState: state, Action: "delete-workload", Immediate: rng.Intn(2) == 0})
+			if rng.Intn(4) != 0 {
+				s.Events = append(s.Events, sim.Injected{AtStep: st, AtState: state, Action: "delete"})
+			}
+			return s
+		}
 		if rng.Intn(5) > 0 {
 			add(exits[rng.Intn(len(exits))])
 		}
@@ -306,14 +403,49 @@ func trunc(s string, n int) string {
 func ClosedLoopCase(prop string) func(env *core.Env, idx int) *core.CaseResult {
 	return func(env *core.Env, idx int) *core.CaseResult {
 		rng := env.RNG(idx)
-		s := GenFor(prop, rng)
+		s := GenForCase(prop, rng, idx)
 		res := &core.CaseResult{}
 		var fp *sim.FaultPlan
-		if prop == "C18" && idx%2 == 1 {
+		if prop == "C18" && idx%4 == 3 {
+			// the teardown sequence of whatever exit the scenario takes (at any phase), with one fault inside it: the k-th
+			// controller call after the user's exit action fails (reads included), or the controller crashes right after
+			// its k-th write of the teardown
+			j := idx / 4
+			hasExit := false
+			for _, e := range s.Events {
+				switch e.Action {
+				case "delete", "disable", "rollback", "v3", "delete-workload", "delete-tr":
+					hasExit = true
+				}
+			}
+			if !hasExit {
+				s.Events = append(s.Events, sim.Injected{AtStep: 1 + rng.Intn(len(s.Steps)), AtState: states[rng.Intn(len(states))], Action: []string{"delete", "delete", "disable", "rollback"}[rng.Intn(4)], Immediate: rng.Intn(2) == 0})
+			}
+			switch j % 4 {
+			case 0:
+				fp = &sim.FaultPlan{CrashAfterExitWrite: 1 + (j/4)%30}
+			case 1:
+				fp = &sim.FaultPlan{FailCallAfterExit: 1 + (j/4)%90, FailKind: []string{"error", "timeout"}[(j/4)%2]}
+			default:
+				// one call shape of the teardown (who, verb, kind), its n-th occurrence after the exit
+				wk := s.WorkloadKey().Kind
+				sites := []string{"br-ctrl get " + wk, "br-ctrl patch " + wk, "br-ctrl list Pod", "br-ctrl get Deployment", "br-ctrl update Deployment", "br-ctrl delete Deployment", "br-ctrl update BatchRelease",
+					"rollout-ctrl get BatchRelease", "rollout-ctrl delete BatchRelease", "rollout-ctrl patch BatchRelease", "rollout-ctrl get Service", "rollout-ctrl patch Service", "rollout-ctrl delete Service",
+					"rollout-ctrl get " + wk, "rollout-ctrl patch " + wk, "rollout-ctrl update Rollout", "rollout-ctrl get Ingress", "rollout-ctrl update Ingress", "rollout-ctrl delete Ingress", "rollout-ctrl get HTTPRoute", "rollout-ctrl update HTTPRoute",
+					"rollout-ctrl get ConfigMap", "br-ctrl get " + wk, "br-ctrl get " + wk}
+				jj := j / 2
+				fp = &sim.FaultPlan{FailSiteAfterExit: sites[jj%len(sites)], FailSiteNth: 1 + (jj/len(sites))%4, FailKind: []string{"error", "timeout"}[jj%2]}
+				if jj%3 == 0 {
+					// the read every BatchRelease teardown starts from
+					fp.FailSiteAfterExit, fp.FailSiteNth = "br-ctrl get "+wk, 1+(jj/3)%6
+				}
+			}
+			res.Count("c18_runs_with_a_teardown_fault", 1)
+		} else if prop == "C18" && idx%4 == 1 {
 			// finalizer removals under a single write fault: an early exit (the release is left while the BatchRelease is
 			// being created / prepared, where the controllers' status lags behind what they already did to the workload)
 			// crossed with one failing controller write among the first 40
-			j := idx / 2
+			j := idx / 4
 			fp = &sim.FaultPlan{FailCommit: 1 + j%40, FailKind: []string{"error", "conflict", "lost"}[(j/40)%3]}
 			s.Events = []sim.Injected{{AtStep: 1, AtState: []string{"StepUpgrade", "BeforeStepUpgrade", "StepUpgrade", "StepTrafficRouting"}[rng.Intn(4)], Action: []string{"delete", "disable", "rollback", "delete"}[rng.Intn(4)], Immediate: rng.Intn(3) > 0}}
 			res.Count("c18_runs_with_a_write_fault", 1)
@@ -355,15 +487,15 @@ func init() {
 	}
 	specs := []spec{
 		{"C01", "exploration", "c01_knob_writes_seen", common + "the monitor evaluates exposure(before/after) with its own interpreter at every controller write to a workload / canary Deployment: raises must stay within the plan of the highest persisted step (percent slack < 1%), and the knob never moves back while the release moves forward. distinct = scenario signature (kind/style/provider/plan shape/events).", 160, 4000},
-		{"C02", "exploration", "c02_cursor_changes_checked", common + "a trace automaton over persisted Rollout status: every cursor change by the controller needs (pods ready at StepUpgrade exit, routed report for traffic steps, approval / duration / 100% last step) or a preceding user request; no write while paused. distinct = scenario signature.", 160, 4000},
+		{"C02", "exploration", "c02_cursor_changes_checked", common + "a trace automaton over persisted Rollout status: every cursor change by the controller needs (pods ready at StepUpgrade exit, routed report for traffic steps, approval / duration / 100% last step) or a preceding user request; no write while paused. distinct = scenario signature.", 240, 6000},
 		{"C03", "exploration", "c03_traffic_raises_checked", common + "at every controller write that raises the canary share / adds a match rule the step's ready new-revision pods are counted; at every StepTrafficRouting exit the configured share per provider equals the step's value. distinct = scenario signature.", 200, 4000},
 		{"C04", "exploration", "c04_snapshots_evaluated", common + "after EVERY committed write of every actor (= every crash point) the snapshot is checked: routes to the canary Service imply it exists, pins the new revision and selects pods; a pinned stable Service that still receives traffic has pods. distinct = scenario signature.", 200, 4000},
 		{"C05", "exploration", "c05_final_states_checked", common + "exit events (rollback, delete, disable, v3, none) are injected at random (step, sub-state); at quiescence after the terminal state the residue set must be empty, user-owned fields equal the user's configuration and the workload converged. distinct = scenario signature.", 200, 4000},
 		{"C07", "exploration", "c07_runs_checked", common + "bounded progress: the terminal state must be reached within 60*(steps+5)*(replicas+6) scheduler actions with every reconcile caused by a recorded wake-up (watch event via the real handlers, Requeue, RequeueAfter, error); a state with nothing enabled that is not terminal is a lost wake-up. distinct = scenario signature.", 200, 4000},
 		{"C10", "exploration", "c10_capacity_removals_checked", common + "a rollback or a v3 release is injected at a random (step, sub-state); from the Cancelling / supersession point every write that removes new-revision capacity (BatchRelease deleted / released, canary Deployment scaled or removed, workload handed back) requires route(store) to send nothing to the canary Service. distinct = scenario signature.", 200, 4000},
-		{"C11", "exploration", "c11_br_status_writes", common + "at every BatchRelease status write: Ready implies enough updated+ready pods (own count of live pods), currentBatch <= batchPartition, Completed implies released workload, unguarded canary Deployments and (wait policy) all pods updated and ready. distinct = scenario signature.", 160, 4000},
+		{"C11", "exploration", "c11_br_status_writes", common + "at every BatchRelease status write: Ready implies enough updated+ready pods (own count of live pods), currentBatch <= batchPartition, Completed implies released workload, unguarded canary Deployments and (wait policy) all pods updated and ready; with a failureThreshold, Ready tolerates that share of the updated pods being unready (scenarios with pods that never become ready). distinct = scenario signature.", 240, 6000},
 		{"C09", "exploration", "runs", common + "accepted Rollouts are reconciled through every phase while documented user-patchable status fields are fuzzed (nextStepIndex in {-5..steps+5, MaxInt32}); every Reconcile, watch handler and webhook Handle runs under recover(): a panic is a violation (controller-runtime 0.14 does not recover reconciler panics). distinct = scenario signature.", 160, 4000},
-		{"C18", "fault_enumeration", "c18_finalizer_removals_checked", common + "deletion / exit events at random (step, sub-state); at every write removing a rollout / batch-release / trafficrouting finalizer the cleanup must be complete in that snapshot. Every second case crosses an early exit (step 1) with one failing controller write (the k-th store-changing write, k = 1..40, kinds error / conflict / lost response): the finalizer clauses must hold under the fault as well. distinct = scenario signature.", 320, 6000},
+		{"C18", "fault_enumeration", "c18_finalizer_removals_checked", common + "deletion / exit events at random (step, sub-state); at every write removing a rollout / batch-release / trafficrouting finalizer the cleanup must be complete in that snapshot. Every fourth case crosses an early exit (step 1) with one failing controller write (the k-th store-changing write, k = 1..40, kinds error / conflict / lost response); every fourth case puts one fault inside the teardown sequence of whatever exit it takes (the k-th controller call after the user's exit action fails, reads included, k = 1..90; the n-th call of one shape - who, verb, kind, e.g. the BatchRelease controller's get of the workload - after the exit fails, n = 1..4; or a crash right after the k-th teardown write, k = 1..30): the finalizer clauses must hold under the fault as well. distinct = scenario signature.", 640, 12000},
 	}
 	for _, sp := range specs {
 		sp := sp
